@@ -90,6 +90,11 @@ def gen_problem(rng, family=None, nmax=6, mmax=3, fixed_prob=0.3, allow_dom=True
         elif t == 2:
             cl[i] = -INF
             cu[i] = np.round(cf[i] + abs(_r(rng)), 3)
+        elif rng.random() < 0.15:
+            # a *narrow* ranged row: much wider than the tolerances, far narrower than the values
+            w_ = 2e-6 * max(1.0, abs(cf[i])) * float(rng.choice([1.0, 2.0]))
+            cl[i] = cf[i] - w_ * float(rng.choice([0.2, 1.0]))
+            cu[i] = cl[i] + 2 * w_
         else:
             cl[i] = np.round(cf[i] - abs(_r(rng)) - 0.01, 3)
             cu[i] = np.round(cf[i] + abs(_r(rng)) + 0.01, 3)
